@@ -209,8 +209,11 @@ def check_capture_sizes(ctx):
             seqs = [y for y in seqs if y]
         if h:
             hists.append(h)
-    for proto in ("redis", "http"):
-        rc, out = ctx.vh("vh-match", ["seq"], inp="\n".join(M.hist_line(proto, h) for h in hists) + "\n", timeout=900)
+    runs = [("redis", hists, M.hist_line), ("http", hists, M.hist_line)]
+    khists = M.keyed_histories(ctx.rng, "amqp", True)[:120]
+    runs += [("amqp", khists, M.keyed_line), ("http2", khists, M.keyed_line)]
+    for proto, hists, liner in runs:
+        rc, out = ctx.vh("vh-match", ["seq"], inp="\n".join(liner(proto, h) for h in hists) + "\n", timeout=900)
         lines = [l for l in out.split("\n") if l.startswith("{")]
         if rc != 0 or len(lines) != len(hists):
             ctx.broken.append("capture-size run failed for %s" % proto)
@@ -219,8 +222,8 @@ def check_capture_sizes(ctx):
         for h, l in zip(hists, lines):
             r = json.loads(l)
             dirs = {}
-            for c, d, p in h:
-                dirs[p] = "%d:%s" % (c, d)
+            for ev in h:
+                dirs[ev[2]] = "%d:%s" % (ev[0], ev[1])
             total = {}
             for it in r["items"] or []:
                 total[dirs.get(it["req"])] = total.get(dirs.get(it["req"]), 0) + it["reqsize"]
@@ -230,10 +233,10 @@ def check_capture_sizes(ctx):
             ctx.count_case(("capture", proto, tuple(h)), len(h) >= 3, "capture-size")
             if {k: v for k, v in total.items() if v} != {k: v for k, v in (r.get("fed") or {}).items() if v} and reported < 2:
                 reported += 1
-                ctx.violation({"kind": "capture-size", "protocol": proto, "history": ["%d:%s:%d" % e for e in h],
+                ctx.violation({"kind": "capture-size", "protocol": proto, "history": [":".join(map(str, e)) for e in h],
                                "fed_bytes": r.get("fed"), "sum_of_capture_sizes": total,
-                               "how": "echo '%s' | work/bin/vh-match seq" % M.hist_line(proto, h)})
-        ctx.sample({"kind": "capture-size", "protocol": proto, "history": ["%d:%s:%d" % e for e in hists[3]],
+                               "how": "echo '%s' | work/bin/vh-match seq" % liner(proto, h)})
+        ctx.sample({"kind": "capture-size", "protocol": proto, "history": [":".join(map(str, e)) for e in hists[3]],
                     "fed": json.loads(lines[3]).get("fed")})
 
 
